@@ -42,8 +42,9 @@ theorem split_loop_equation (c : SizeConfig) (remaining : Str) (bs : List Bounda
         else
           let chunk := trimSpace (remaining.take splitPos)
           let rest := trimSpace (remaining.drop splitPos)
-          if chunk = [] then splitToSize c rest (adjustBoundaryPositions bs splitPos)
-          else chunk :: splitToSize c rest (adjustBoundaryPositions bs splitPos) := by
+          let bs' := adjustBoundaryPositions bs (splitPos + leadingSpace (remaining.drop splitPos))
+          if chunk = [] then splitToSize c rest bs'
+          else chunk :: splitToSize c rest bs' := by
   rw [splitToSize]
   simp only [dite_eq_ite]
 
@@ -62,14 +63,14 @@ theorem split_pieces_nonempty (c : SizeConfig) (text : Str) (bs : List Boundary)
     rw [dif_pos hsp]
     intro p hp; simp at hp; subst hp
     intro e; subst e; exact h rfl
-  | case4 rem bs h hmax sp hsp chunk rest hchunk ih =>
+  | case4 rem bs h hmax sp hsp chunk rest bs' hchunk ih =>
     rw [splitToSize, if_neg h, if_neg hmax]
     simp only [sp] at hsp
     rw [dif_neg hsp]
     simp only [chunk, sp] at hchunk
     rw [if_pos hchunk]
     exact ih
-  | case5 rem bs h hmax sp hsp chunk rest hchunk ih =>
+  | case5 rem bs h hmax sp hsp chunk rest bs' hchunk ih =>
     rw [splitToSize, if_neg h, if_neg hmax]
     simp only [sp] at hsp
     rw [dif_neg hsp]
